@@ -1,0 +1,33 @@
+//go:build verif
+
+package connect
+
+import "time"
+
+// Call-throughs for the verification harness (/verif). They exist only when the
+// library is built with -tags verif and add no behaviour of their own.
+
+// VerifGRPCPercentEncode exposes grpcPercentEncode.
+func VerifGRPCPercentEncode(msg string) string { return grpcPercentEncode(newBufferPool(), msg) }
+
+// VerifGRPCPercentDecode exposes grpcPercentDecode.
+func VerifGRPCPercentDecode(encoded string) string {
+	return grpcPercentDecode(newBufferPool(), encoded)
+}
+
+// VerifGRPCEncodeTimeout exposes grpcEncodeTimeout.
+func VerifGRPCEncodeTimeout(timeout time.Duration) (string, error) {
+	return grpcEncodeTimeout(timeout)
+}
+
+// VerifGRPCParseTimeout exposes grpcParseTimeout; ok is false for "no timeout".
+func VerifGRPCParseTimeout(timeout string) (time.Duration, bool, error) {
+	d, err := grpcParseTimeout(timeout)
+	if err == errNoTimeout { // nolint:errorlint,goerr113
+		return 0, false, nil
+	}
+	return d, err == nil, err
+}
+
+// VerifConnectCodeToHTTP exposes connectCodeToHTTP.
+func VerifConnectCodeToHTTP(code Code) int { return connectCodeToHTTP(code) }
